@@ -15,6 +15,15 @@ impl<K, V> FrozenCopyMap<K, V> {
     #[verifier::external_body]
     pub fn insert_copy(&self, k: K, v: V) -> (r: Option<V>)
     { unimplemented!() }
+    /// FrozenCopyMap::insert_copy reached through a UNIQUE borrow of its owner (cell erasure, rule R12frozencopy): the effect
+    /// is the one VERIFIED of the real function in unit pool under the same erasure -- HashMap::insert: (k, v) is stored
+    /// (overwriting), every other key is untouched
+    #[verifier::external_body]
+    pub fn vinsert_copy_mut(&mut self, k: K, v: V) -> (r: Option<V>)
+        ensures
+            final(self).spec_get(k) == Some(v), r == old(self).spec_get(k),
+            forall|k2: K| k2 != k ==> #[trigger] final(self).spec_get(k2) == old(self).spec_get(k2),
+    { unimplemented!() }
 }
 
 #[verifier::external_body]
